@@ -59,6 +59,16 @@ func parseDocument(document string, eventReceiver events.DataEventReceiver, rule
 	lexer.RemoveErrorListeners()
 	lexer.AddErrorListener(errorListener)
 	stream := antlr.NewCommonTokenStream(lexer, antlr.TokenDefaultChannel)
+	if rules != nil {
+		// The parser is recursive descent: its stack grows with the nesting
+		// of the document, and a few megabytes of opening brackets exhaust the
+		// largest stack the runtime allows (fatal, not recoverable) before any
+		// rule has seen a single event. The lexer is not recursive, so the
+		// nesting limit is applied to the token stream first.
+		if err := checkNestingDepth(stream, rules.MaxContainerDepth); err != nil {
+			return err
+		}
+	}
 
 	p := parser.NewCTEParser(stream)
 	p.RemoveErrorListeners()
@@ -73,6 +83,28 @@ func parseDocument(document string, eventReceiver events.DataEventReceiver, rule
 
 	antlr.ParseTreeWalkerDefault.Walk(listener, p.Cte())
 	return errorListener.Error
+}
+
+func checkNestingDepth(stream *antlr.CommonTokenStream, maxDepth uint64) error {
+	stream.Fill()
+	depth := uint64(0)
+	for _, token := range stream.GetAllTokens() {
+		switch token.GetTokenType() {
+		case parser.CTELexerLIST_BEGIN, parser.CTELexerMAP_BEGIN, parser.CTELexerNODE_BEGIN, parser.CTELexerEDGE_BEGIN,
+			parser.CTELexerRECORD_TYPE_BEGIN, parser.CTELexerRECORD_BEGIN:
+			depth++
+			// (one level of tolerance: the rules have the last word on
+			// documents that are exactly at the limit)
+			if depth > maxDepth+1 {
+				return fmt.Errorf("line %v, col %v: exceeded max container depth of %v", token.GetLine(), token.GetColumn()+1, maxDepth)
+			}
+		case parser.CTELexerLIST_END, parser.CTELexerMAP_OR_RECORD_END, parser.CTELexerEDGE_OR_NODE_END, parser.CTELexerRECORD_TYPE_END:
+			if depth > 0 {
+				depth--
+			}
+		}
+	}
+	return nil
 }
 
 type reportingErrorListener struct {
